@@ -157,13 +157,30 @@ def run_task(cfg):
                         m2 = dtwh.SeriesMode(c, r, 'squared euclidean', ndim=ndim)
                         m2.a, m2.b = mode.b, mode.a
                         m2.s1, m2.s2 = mode.s2, mode.s1
-                    for f1, e1, p1 in paths(mode, base, mode.assume + [P >= 0]):
-                        b2 = dict(base, psi=psi_sw)
-                        for f2, e2, p2 in paths(m2, b2, f1):
-                            if e1 is None or e2 is None:
-                                check(f2, z3.BoolVal(True), mode, syms, 'distance raises', o)
-                            else:
-                                check(f2, smt.er_neq(e1, e2), mode, syms, 'd(s1,s2,psi) = d(s2,s1,psi swapped)', o)
+                    extras = [None]
+                    if (w in (None, 1)) and psi in (None, 1, (0, 1, 1, 0)) and \
+                            ((eng == 'c' and r * c <= 6) or (eng == 'py' and r * c <= 4)):
+                        extras += ['step', 'md']
+                    for extra in extras:
+                        bx = dict(base)
+                        sy = dict(syms)
+                        ox = dict(o, extra=extra)
+                        if extra == 'step':
+                            bx['max_step'] = SReal(S)
+                            sy['max_step'] = S
+                        elif extra == 'md':
+                            bx['max_dist'] = SReal(S2)
+                            sy['max_dist'] = S2
+                        for f1, e1, p1 in paths(mode, bx, mode.assume + [P >= 0, S > 0, S2 > 0]):
+                            b2 = dict(bx, psi=psi_sw)
+                            for f2, e2, p2 in paths(m2, b2, f1):
+                                if e1 is None or e2 is None:
+                                    if eng == 'c':
+                                        continue
+                                    check(f2, z3.BoolVal(True), mode, sy, 'distance raises', ox)
+                                else:
+                                    check(f2, smt.er_neq(e1, e2), mode, sy, 'd(s1,s2,psi) = d(s2,s1,psi swapped)', ox,
+                                          lemmas='pairwise' if extra else 'unary')
                 elif law == 'window':
                     if w is None:
                         continue
@@ -284,6 +301,11 @@ def replay(cex):
         if law == 'nonneg':
             return {'reproduced': d1 < 0, 'observed': d1, 'expected': '>= 0'}
         if law == 'symmetry':
+            if o.get('extra') == 'step':
+                kw['max_step'] = float(inp['max_step'])
+            elif o.get('extra') == 'md':
+                kw['max_dist'] = float(inp['max_dist'])
+            d1 = _dist(cex, inp, r, c, s1, s2, dm, kw)
             t = spec.norm_psi(kw['psi'])
             kw2 = dict(kw, psi=None if kw['psi'] is None else (t[2], t[3], t[0], t[1]))
             d2 = _dist(cex, inp, r, c, s1, s2, dm, kw2, transpose=True)
